@@ -41,6 +41,7 @@ fn with_event(op: &str, z: Dz, u: NaiveDateTime, off: i32, f: &str, v: i64, reg:
 
 pub fn run(ctx: &Ctx) -> Value {
     let mut tw = Tw::new(&ctx.out, "Trace_DateTimeTz", ctx.t(2_500, 15_000));
+    let mut sh = Tw::new(&ctx.out, "Trace_Show", ctx.t(2_500, 15_000));
     let mut rng = Rng::new(ctx.seed ^ 0x04);
     let us = instants(&mut rng, ctx.t(30, 3_000));
     let mut n_ev = [0usize; 4];
@@ -58,6 +59,11 @@ pub fn run(ctx: &Ctx) -> Value {
                 "iy": iw.year(), "iw": iw.week(), "h": z.hour(), "mi": z.minute(), "s": z.second(), "ns": z.nanosecond()}) }));
             tw.emit(ev("naive_local", json!({"u": ndt(u), "off": off}), || json!({"r": ndt(z.naive_local())})));
             tw.emit(ev("date_naive", json!({"u": ndt(u), "off": off}), || { let d = z.date_naive(); json!({"n": dn(d)}) }));
+            // the wall clock as text (Display / Debug): also - and in particular - when it lies in the one-day headroom (judged by Show.tla)
+            { let hr = crate::w::c09::headroom(&u, off);
+              if hr == 1 || i % 16 == 0 {
+                  sh.emit(ev("show", json!({"ty": "fixed", "u": ndt(u), "off": off, "headroom": hr}), || json!({"display": crate::big::cps(&z.to_string()), "debug": crate::big::cps(&format!("{:?}", z))})));
+              } }
             // the wall clock, used as input of from_local_datetime (only when it is a valid naive value)
             if let Ok(w) = crate::guard(|| z.naive_local()) {
                 for &off2 in &[off, -off, 0] {
@@ -155,7 +161,8 @@ pub fn run(ctx: &Ctx) -> Value {
         }
     }
     tw.finish();
+    sh.finish();
     let dz = super::datez::run(ctx);      // the deprecated Date<Tz> type, judged by Trace_DateTz.tla
     json!({"events": tw.total, "instants": us.len(), "offsets": OFFS.len(), "replacement_events": n_ev[1], "session_steps": n_ev[3], "sessions": sessions,
-           "date_tz_events": dz["date_tz_events"], "date_tz_dates": dz["date_tz_dates"]})
+           "wall_clock_text_events": sh.total, "date_tz_events": dz["date_tz_events"], "date_tz_dates": dz["date_tz_dates"]})
 }
